@@ -37,8 +37,8 @@ func mkObj(base, name string, kind int, tag string, uid uint32) {
 }
 
 type want struct {
-	kind   int
-	fromSrc bool   // attributes and content come from the source entry at srcPath
+	kind    int
+	fromSrc bool // attributes and content come from the source entry at srcPath
 	srcPath string
 	dstPath string // for kept destination entries: the old destination entry
 }
